@@ -797,13 +797,13 @@ def _unparse(s):
 # Coq side
 # --------------------------------------------------------------------------
 HDR = ("From Coq Require Import List Bool NArith ZArith Arith String.\nImport ListNotations.\n"
-       "From QV Require Import M_A2A P_A2A Chk_A2A.\n"
+       "From QV Require Import M_A2A Chk_A2A.\n"
        "Local Open Scope string_scope.\nLocal Open Scope list_scope.\n")
-HDR_NOGUARD = HDR.replace("M_A2A P_A2A Chk_A2A", "M_A2A Chk_A2A")
+HDR_NOGUARD = HDR
 
 
 def have_guard():
-    return os.path.exists(os.path.join(C.THEORIES, "P_A2A.vo")) and "chk_guard" in open(os.path.join(C.THEORIES, "Chk_A2A.v")).read()
+    return "Definition chk_guard" in open(os.path.join(C.THEORIES, "Chk_A2A.v")).read()
 
 
 def build_files(results, with_guard):
@@ -837,7 +837,7 @@ def build_files(results, with_guard):
 def ensure_vo():
     th = C.THEORIES
     log = ""
-    names = ["M_A2A"] + (["P_A2A"] if os.path.exists(os.path.join(th, "P_A2A.v")) else []) + ["Chk_A2A"]
+    names = ["M_A2A", "Chk_A2A"]
     with C._Lock():
         newest = 0
         for f in names:
